@@ -14,6 +14,8 @@
 #include <cfloat>
 #include <climits>
 #include <cerrno>
+#include <cstdarg>
+#include <functional>
 #include <cstdlib>
 #include <sys/uio.h>
 #include <sanitizer/allocator_interface.h>
@@ -294,7 +296,7 @@ static Den denote_create(const char *desc, bool direct_values = false)
 }
 
 // ------------------------------------------------------------------ source specifications
-enum Fam { F_CREATE, F_VALUES, F_PROFILE, F_LINAPI, F_BNDAPI, F_ITERARG, F_TEXT, F_BUFFER, F_ARGS, F_CXXD, F_CXXI };
+enum Fam { F_CREATE, F_VALUES, F_PROFILE, F_LINAPI, F_BNDAPI, F_ITERARG, F_TEXT, F_BUFFER, F_ARGS, F_CXXD, F_CXXI, F_VARARG, F_CXXBUF };
 struct Spec {
 	Fam fam;
 	bool null_text, null_sep, null_arr, untyped;
@@ -321,6 +323,8 @@ struct Spec {
 		case F_BUFFER: case F_ARGS: return std::string(fam == F_BUFFER ? "mpt_meta_buffer(" : "mpt_meta_arguments(") + (null_arr ? std::string("NULL") : (dblbuf ? "double " + g() : "char " + hex(bytes.data(), bytes.size()))) + ")";
 		case F_CXXD: return "source<double>(" + g() + fmt(", %zu, %d)", grid.size(), step);
 		case F_CXXI: return "source<int>(" + g() + fmt(", %zu, %d)", grid.size(), step);
+		case F_VARARG: return "mpt_process_vararg(\"" + text + "\", " + g() + ")";
+		case F_CXXBUF: return "io::buffer::metatype::create(char " + hex(bytes.data(), bytes.size()) + ")";
 		}
 		return "?";
 	}
@@ -487,6 +491,8 @@ struct Src {
 			return op == READ || op == STEP || op == RESET || op == CLONE || (op == CONSD && sp.rtype == 'd') || (op == CONSU && sp.rtype == 'd' && sp.text.find_first_not_of("1 ,") == std::string::npos);   // other numerals parse differently as unsigned
 		case F_BUFFER: case F_ARGS: return op == READ || op == ADV || op == RESET || op == CLONE || op >= PRB_I;
 		case F_CXXD: case F_CXXI: return op == READ || op == ADV || op == RESET || op == CONSD || op == CONSU;
+		case F_VARARG: return op == READ || op == ADV || op == RESET || op == CONSD || op == PRB_I;
+		case F_CXXBUF: return op == READ || op == ADV || op == RESET || op == CLONE;
 		default: return op != STEP && op != PRB_K && op != PRB_Y && op != PRB_Q;   // number generators: value() is stateless, two target types suffice
 		}
 	}
@@ -729,6 +735,24 @@ static void process(Run &r, const Spec &sp, uint64_t idx, const Vec *replay)
 		Inst in;
 		if (!create_checked(s, in, true)) return;
 		if (r.replaying) r.note("%s: accepted, denotation class %s/%s", sp.label().c_str(), s.fam.c_str(), sp.den.why.c_str());
+		if (sp.fam == F_ARGS && in.ext) {
+			// the first segment is handed out as the command string of the arguments source: it must be a string inside the used bytes
+			static const char sent[] = "?";
+			const char *cmd = sent; int ret;
+			const buffer *b = (const buffer *) in.ext; const char *data = (const char *) (b + 1);
+			r.hint(("command|" + s.fam + "|" + sp.den.why).c_str());
+			{ Lib scope; ret = in.mt->convert('s', &cmd); }
+			++r.transitions;
+			if (asan_error()) { s.viol("command|" + s.fam + "|" + sp.den.why + "|memory", Vec(), "converting the arguments source to its command string touches memory outside the array"); in.destroy(); return; }
+			if (ret >= 0 && cmd && cmd != sent) {
+				r.count("args-command-delivered");
+				if (cmd < data || cmd > data + b->_used || !memchr(cmd, 0, b->_used - (cmd - data))) {
+					s.viol("command|" + s.fam + "|" + sp.den.why + "|unterminated", Vec(), fmt("the command string handed out is not terminated inside the %zu used bytes of the array", (size_t) b->_used)); in.destroy(); return;
+				}
+				if (!sp.dblbuf && !sp.untyped && std::string(cmd) != std::string(sp.bytes.c_str())) { s.viol("command|" + s.fam + "|" + sp.den.why + "|wrong-value", Vec(), "the command string is not the first segment"); in.destroy(); return; }
+			}
+			else r.count("args-command-refused");
+		}
 		bool ok = do_walk(s, in, w);
 		in.destroy();
 		if (ok && !leak_check(s, Vec(), "release")) ok = false;
@@ -1108,6 +1132,16 @@ static void fam_text(Tier, std::vector<Spec> &v)
 		Den &d = s.den; d.cls = Den::WELL; d.kind = Den::LIST; d.fam = "text"; d.why = "separated-words"; d.have_n = true; d.nlo = d.nhi = q.size(); d.plain = true;
 		v.push_back(s);
 	}
+	// white space between key and separator belongs to neither element
+	sq.clear(); seqs({ "a", "bc" }, 3, sq, false);
+	// (explicit separator set without blank: with the default set a blank is a separator itself and "a ,b" has an empty element in between)
+	for (auto &q : sq) for (const char *j : { " ,", " , ", " ;", "  ; " }) {
+		if (q.size() < 2) continue;
+		Spec s; s.fam = F_TEXT; s.rtype = 'k'; s.null_sep = false; s.sep = ",;";
+		for (size_t i = 0; i < q.size(); ++i) { s.text += (i ? j : "") + q[i]; s.den.list.push_back(Obs::str(q[i])); }
+		Den &d = s.den; d.cls = Den::WELL; d.kind = Den::LIST; d.fam = "text"; d.why = "spaced-separator"; d.have_n = true; d.nlo = d.nhi = q.size(); d.plain = true;
+		v.push_back(s);
+	}
 	// trailing / only white space is not an element
 	sq.clear(); seqs({ "3", "-2.5" }, 2, sq, true);
 	for (auto &q : sq) for (const char *tail : { " ", "  ", "\t", " \n" }) {
@@ -1201,6 +1235,72 @@ static void fill_body(Run &r, Ctx &x)
 	free(t);
 }
 
+// ---- variadic argument iterator (mpt_process_vararg): lives only inside the callback, so every history is run completely inside it
+static const char *va_fmts[] = { "", "i", "d", "iid", "di", "dd", "idi" };
+static int va_cb(void *ctx, iterator *it) { return (*(std::function<int(iterator *)> *) ctx)(it); }
+static int va_call(std::function<int(iterator *)> &f, const char *fmt, ...) { va_list ap; va_start(ap, fmt); int ret; { Lib scope; ret = mpt_process_vararg(fmt, ap, va_cb, &f); } va_end(ap); return ret; }
+static int va_run(int fi, std::function<int(iterator *)> &f)
+{
+	switch (fi) {
+	case 0: return va_call(f, "");
+	case 1: return va_call(f, "i", 11);
+	case 2: return va_call(f, "d", 1.5);
+	case 3: return va_call(f, "iid", 11, 21, 3.5);
+	case 4: return va_call(f, "di", 1.5, 21);
+	case 5: return va_call(f, "dd", 1.5, 2.5);
+	default: return va_call(f, "idi", 11, 2.5, 31);
+	}
+}
+static Spec va_spec(int fi)
+{
+	static const double vals[][3] = { { 0 }, { 11 }, { 1.5 }, { 11, 21, 3.5 }, { 1.5, 21 }, { 1.5, 2.5 }, { 11, 2.5, 31 } };
+	Spec s; s.fam = F_VARARG; s.text = va_fmts[fi]; s.rtype = 'd';
+	for (size_t i = 0; i < s.text.size(); ++i) { s.grid.push_back(vals[fi][i]); s.den.list.push_back(Obs::dbl(vals[fi][i])); }
+	Den &d = s.den; d.cls = Den::WELL; d.kind = Den::LIST; d.fam = "vararg"; d.why = "arguments"; d.have_n = true; d.nlo = d.nhi = s.text.size(); d.plain = true;
+	return s;
+}
+// run one history; returns 1 fine, 0 the last op violated / is not enabled, -1 an earlier op did not pass again
+static int va_history(Run &r, const Spec &sp, uint64_t fi, const Vec &hist, bool verbose)
+{
+	Src s(r, sp, fi); s.verbose = verbose;
+	Walk w; w.n = sp.den.list.size(); w.ref = sp.den.list;
+	int result = 1;
+	std::function<int(iterator *)> f = [&](iterator *it) {
+		Inst in; in.it = it; Model m; Vec pre;
+		for (size_t i = 0; i < hist.size(); ++i) {
+			if (verbose) r.note("op %s at p=%llu", opn[hist[i]], (unsigned long long) m.p);
+			++r.transitions;
+			if (!s.apply(in, m, w, (int) hist[i], pre)) { result = i + 1 == hist.size() ? 0 : -1; break; }
+			pre.push_back(hist[i]);
+		}
+		in.it = 0;
+		return 0;
+	};
+	asan_error();
+	r.hint("vararg");
+	int ret = va_run((int) fi, f);
+	if (ret < 0 && result > 0) { s.viol("create|vararg|arguments|refused", Vec(), fmt("mpt_process_vararg returned %d", ret)); return 0; }
+	return result;
+}
+static void va_explore(Run &r, uint64_t fi)
+{
+	Spec sp = va_spec((int) fi);
+	static const int ops[] = { READ, ADV, RESET, CONSD, PRB_I };
+	++r.states;
+	std::function<void(const Vec &)> rec = [&](const Vec &hist) {
+		if ((int) hist.size() >= g_depth || r.expired()) return;
+		for (int op : ops) {
+			Vec h = hist; h.push_back(op);
+			int res = va_history(r, sp, fi, h, false);
+			if (res < 0) { r.violation_at("ENGINE|nondeterministic-replay", Vec(1, fi), "vararg history prefix did not pass again"); r.incomplete("nondeterministic replay"); return; }
+			++C.nontrivial;
+			if (res > 0) { ++r.states; rec(h); }
+		}
+	};
+	rec(Vec());
+	r.count("accepted:vararg");
+}
+
 // ------------------------------------------------------------------ jobs
 static int mut_chunks(Tier t, int base) { (void) base; return t == Quick ? 1 : 4; }
 static bool mut_double(Tier t, int base) { return t == Thorough || base < 4; }
@@ -1211,7 +1311,7 @@ void mc_jobs(Tier t, std::vector<std::string> &jobs)
 	for (int c = 0; c < NCOUNTS; ++c) jobs.push_back("fac:" + std::to_string(c));
 	for (int b = 0; b < (int) mut_bases().size(); ++b) for (int c = 0; c < mut_chunks(t, b); ++c) jobs.push_back(fmt("mut:%d:%d", b, c));
 	for (int g = 0; g < (int) grids().size(); ++g) jobs.push_back("profile:" + std::to_string(g));
-	jobs.push_back("api"); jobs.push_back("iterarg"); jobs.push_back("text"); jobs.push_back("buffer"); jobs.push_back("cxx"); jobs.push_back("fill");
+	jobs.push_back("api"); jobs.push_back("iterarg"); jobs.push_back("text"); jobs.push_back("buffer"); jobs.push_back("cxx"); jobs.push_back("fill"); jobs.push_back("vararg");
 }
 static void sources(Tier t, const std::string &job, std::vector<Spec> &v)
 {
@@ -1262,6 +1362,7 @@ void mc_explore(Run &r, const std::string &job)
 	r.require("nontrivial");
 	warmup();
 	if (job == "fill") { dfs(r, [&](Ctx &x) { fill_body(r, x); }); flush_counters(r); return; }
+	if (job == "vararg") { if (g_depth > 7) g_depth = 7; r.require("accepted:vararg"); dfs(r, [&](Ctx &x) { va_explore(r, x.choose(sizeof va_fmts / sizeof *va_fmts)); }); flush_counters(r); return; }
 	std::vector<Spec> v;
 	sources(r.tier, job, v);
 	if (job == "lin") { r.require("accepted:linear"); r.require("closed-form-checked:linear"); }
@@ -1284,6 +1385,7 @@ void mc_replay(Run &r, const std::string &job, const Vec &v)
 	memset(&C, 0, sizeof C);
 	warmup();
 	if (job == "fill") { dfs_replay(r, [&](Ctx &x) { fill_body(r, x); }, v); return; }
+	if (job == "vararg") { if (v.empty() || v[0] >= sizeof va_fmts / sizeof *va_fmts) return; r.enter(v, ""); if (g_depth > 7) g_depth = 7; if (v.size() == 1) va_explore(r, v[0]); else { Spec sp = va_spec((int) v[0]); va_history(r, sp, v[0], Vec(v.begin() + 1, v.end()), true); } return; }
 	std::vector<Spec> src;
 	sources(r.tier, job, src);
 	if (v.empty() || v[0] >= src.size()) { r.note("bad replay vector"); return; }
